@@ -261,7 +261,16 @@ func buildLabBatch(args map[string]string, dirName string, withFaults bool) (*la
 			if only, ok := args["format"]; ok && only != f {
 				continue
 			}
-			c := lab.AddCase(d, f)
+			var c *LabCase
+			if vf, ok := args["veneers"]; ok {
+				raw, err := os.ReadFile(vf)
+				if err != nil {
+					return err
+				}
+				c = lab.AddCaseVeneers(d, f, opts.GoFlags, opts.Builders, opts.Converters, string(raw))
+			} else {
+				c = lab.AddCase(d, f)
+			}
 			b.cases = append(b.cases, c)
 			if c.Defs == nil {
 				continue
